@@ -57,7 +57,13 @@ def gen_module(rng, idx):
                 stmts.append(star_stmt(rng.choice(STAR_KINDS), 10 + i))
             else:
                 stmts.append(gendoc.Stmt(rng.choice(gendoc.ALL_KINDS), 10 + i))
-        text, wants = gendoc.render_layout(rng, stmts, google=rng.random() < 0.3)
+        tagged = rng.random() < 0.15
+        if tagged:
+            # output (and so a want line) that reads like a section heading, inside a google block: it is a line of the example
+            stmts.insert(rng.randrange(len(stmts) + 1), gendoc.Stmt('print_tagword', 40 + j))
+            if rng.random() < 0.5:
+                stmts.append(gendoc.Stmt('assign', 50 + j))
+        text, wants = gendoc.render_layout(rng, stmts, google=True if tagged else rng.random() < 0.3, want_prob=1.0 if tagged else 0.6)
         if rng.random() < 0.2:
             # a long run of statements without wants, with block directives (that change nothing) far apart
             stmts = [gendoc.Stmt(rng.choice(['assign', 'multi', 'compound', 'for', 'semicolon', 'augassign', 'def']), 10 + i) for i in range(rng.randint(9, 18))]
